@@ -678,6 +678,12 @@ func (x *Exec) applyModifies(st *State, spec *UnitSpec, pre *State, binds map[st
 							key, vs := x.fieldKeyFor(obj, f)
 							excSort[key] = vs
 							exc[key] = append(exc[key], obj.S)
+						} else if x.revealed[l.Fun] {
+							// body mode: the model is its definition, so the callee may change every location the definition reads
+							for _, fp := range x.modelFootprintAll(st, mu, obj, pre) {
+								excSort[fp.key] = fp.vs
+								exc[fp.key] = append(exc[fp.key], fp.ref)
+							}
 						} else {
 							modelExc[l.Fun] = append(modelExc[l.Fun], obj.S)
 						}
@@ -795,6 +801,77 @@ func (x *Exec) checkWriteFrame(st *State, key, ref string, pos ast.Node) {
 
 func (x *Exec) modelReadsKey(mu *UnitSpec, obj Term, key string) bool {
 	return len(x.modelFootprint(mu, obj, key)) > 0
+}
+
+type footprintLoc struct{ key, vs, ref string }
+
+// modelFootprintAll: every heap location (field of an object, element array of a slice) that the
+// definition of model mu reads when applied to obj, evaluated in state pre.
+func (x *Exec) modelFootprintAll(st *State, mu *UnitSpec, obj Term, pre *State) []footprintLoc {
+	var out []footprintLoc
+	if obj.T == nil {
+		obj.T = x.modelParamType(mu, 0)
+	}
+	env := &cxEnv{live: st, ev: pre, old: pre, binds: map[string]Term{}, bound: map[string]Term{}}
+	var evalPath func(e cx) (Term, bool)
+	evalPath = func(e cx) (Term, bool) {
+		switch y := e.(type) {
+		case *cxIdent:
+			if len(mu.Params) > 0 && y.Name == mu.Params[0] {
+				return obj, true
+			}
+		case *cxSel:
+			base, ok := evalPath(y.X)
+			if !ok {
+				return Term{}, false
+			}
+			saved := x.undecided
+			r := x.cxField(env, base, y.Sel, e)
+			bad := len(x.undecided) > len(saved)
+			x.undecided = saved
+			return r, !bad
+		}
+		return Term{}, false
+	}
+	var walk func(e cx)
+	walk = func(e cx) {
+		switch y := e.(type) {
+		case *cxSel:
+			if base, ok := evalPath(y.X); ok {
+				if k2, vs := x.fieldKeyFor(base, y.Sel); k2 != "" {
+					out = append(out, footprintLoc{k2, vs, base.S})
+				}
+			}
+			walk(y.X)
+		case *cxIdx:
+			if sl, ok := evalPath(y.X); ok && sl.Sort == "Slice" && sl.T != nil {
+				es, _ := x.elemSortOf(sl.T)
+				out = append(out, footprintLoc{elemKey(es), "(Array Int " + es + ")", "(s_base " + sl.S + ")"})
+			}
+			walk(y.X)
+			walk(y.I)
+		case *cxBin:
+			walk(y.L)
+			walk(y.R)
+		case *cxUn:
+			walk(y.X)
+		case *cxCall:
+			for _, a := range y.Args {
+				walk(a)
+			}
+		case *cxIte:
+			walk(y.C)
+			walk(y.A)
+			walk(y.B)
+		case *cxQuant:
+			walk(y.Body)
+		case *cxLet:
+			walk(y.Val)
+			walk(y.Body)
+		}
+	}
+	walk(mu.ModelDef)
+	return out
 }
 
 // modelFootprint: the objects whose field `key` the definition of model mu reads
